@@ -14,9 +14,10 @@ CONSTANTS
   Vers = {0}
   FixH4 = FALSE
   SysZeroWrites = FALSE
+  FilterReorgInBatch = TRUE
   MaxSteps = 10
   SimMaxOps = 3
 INIT MBTInit
 NEXT MBTNext
-INVARIANTS TypeOK ReadsAgree HeadAgrees NoOrphanLogs Canon IdxCanon IdxSound
+INVARIANTS TypeOK ReadsAgree HeadAgrees NoOrphanLogs Canon IdxCanon IdxSound FilterCoversChain
 CHECK_DEADLOCK FALSE
